@@ -1074,15 +1074,17 @@ Module C18Ex.
   Proof. vm_compute. split; reflexivity. Qed.
 
   (** kill 11 with a reason: RESULT to the caller, GOODBYE with that reason to
-      the target only, then (observer 10) subscription on_delete, registration
+      the target only, then (observer 10) subscription on_unsubscribe before
+      on_delete, registration
       on_unregister before on_delete, on_leave last *)
   Lemma kill :
     snd (step r0 (call12 "wamp.session.kill" [vid 11] [("reason", vuri "x.y")])) =
     [(12, RResult 5 [] [] []); (11, RGoodbye [] "x.y");
-     (10, REvent 2 10 [("topic", vuri t_sub_on_delete)] [vid 11; vid 1] []);
-     (10, REvent 2 11 [("topic", vuri t_reg_on_unregister)] [vid 11; vid 24] []);
-     (10, REvent 2 12 [("topic", vuri t_reg_on_delete)] [vid 11; vid 24] []);
-     (10, REvent 2 13 [("topic", vuri t_on_leave)] [vid 11; vstr "<gen>"; vstr "anonymous"] [])] /\
+     (10, REvent 2 10 [("topic", vuri t_sub_on_unsubscribe)] [vid 11; vid 1] []);
+     (10, REvent 2 11 [("topic", vuri t_sub_on_delete)] [vid 11; vid 1] []);
+     (10, REvent 2 12 [("topic", vuri t_reg_on_unregister)] [vid 11; vid 24] []);
+     (10, REvent 2 13 [("topic", vuri t_reg_on_delete)] [vid 11; vid 24] []);
+     (10, REvent 2 14 [("topic", vuri t_on_leave)] [vid 11; vstr "<gen>"; vstr "anonymous"] [])] /\
     map s_id (r_clients (fst (step r0 (call12 "wamp.session.kill" [vid 11] [("reason", vuri "x.y")])))) = [10; 12].
   Proof. vm_compute. split; reflexivity. Qed.
 
